@@ -239,6 +239,12 @@ def run(ctx):
             # the sign of a zero coming out of f32::min / f32::max is unspecified: -0 and +0 are one box
             z = lambda r: [r[0]] + [','.join('0' if w == '2147483648' else w for w in x.split(',')) for x in r[1:]]
             a, b = z(a), z(b)
+            # infinities and NaN in a coordinate are outside the scanner model (its min / max fold starts from the first value, the
+            # code's from f32::MAX / f32::MIN: they agree on finite values only, as stated in Model/Scan.v)
+            words = [int(w) for r in (a, b) for x in r[1:] for w in x.split(',') if w.lstrip('-').isdigit()]
+            if any((w & 0x7fffffff) >= 0x7f7fffff for w in words):
+                dist['corr-skipped:non-finite'] = dist.get('corr-skipped:non-finite', 0) + 1
+                continue
         fam = 'corr:' + c.kind; dist[fam] = dist.get(fam, 0) + 1
         if a and a[0] not in ('OK', 'ERR'):
             yield {'kind': 'oracle', 'what': 'hook did not end with a result or an error: %s on %s' % (a, c.meta['what']), 'case': {'line': c.line()}, 'observed': a, 'expected': 'Ok or Err'}
